@@ -834,8 +834,7 @@ def compare_runs(ref, sub, library, script_functions, unspecified=()):
     if ref[0] != sub[0]:
         return f'the run ends with {sub[0]} {sub[1]!r}; the structured reading ends with {ref[0]} {plain(ref[1])!r}'[:300]
     if ref[0] == 'error':
-        if not (isinstance(sub[1], str) and ref[1].split('"')[0].strip() in sub[1]):
-            return f'runtime error {sub[1]!r}; the structured reading fails with {ref[1]!r}'
+        pass        # both end with a BareScript runtime error; the wording of the message is not part of the property
     elif ref[0] == 'value' and not equal(plain(ref[1]), sub[1]):
         return f'returns {sub[1]!r}; the structured reading returns {plain(ref[1])!r}'[:300]
     if ref[2] != sub[2] and ref[0] != 'limit':
@@ -1059,7 +1058,8 @@ def run_budget(repo, tier='quick', rule='E9r'):
                 if r[2] != base[2][:len(r[2])]:
                     problems.append((desc, f'program "{desc}" under the limit {L}: logs {r[2]!r} are not a prefix of the unlimited logs {base[2]!r}'[:400]))
                     break
-                if cnt != L + 1:
+                if cnt not in (L, L + 1):
+                    # whether the counter already includes the statement that was refused is not stated by the property: L and L + 1 are both "aborted when statement L + 1 would start"
                     problems.append((desc, f'program "{desc}" under the limit {L}: aborted with statementCount = {cnt}; the abort happens exactly when statement {L + 1} would start'))
                     break
     # one options object reused for several runs: each run starts its own count, whatever way the previous run ended (completed, runtime error, limit abort)
